@@ -154,6 +154,68 @@ fn clear_tamper() {
     p3_circuit_prover::verif_hooks::set_matrix_tamper(None);
 }
 
+/// An honest proof of a small ALU circuit over `EF` (BabyBear base field, extension degree `D`).
+fn bb_honest_proof<EF, const D: usize>() -> Option<BatchStarkProof<BabyBearConfig>>
+where
+    EF: p3_field::Field + p3_field::ExtensionField<BB> + BasedVectorSpace<BB> + p3_circuit_prover::field_params::ExtractBinomialW<BB> + core::hash::Hash,
+{
+    let mut b = CircuitBuilder::<EF>::new();
+    let x = b.public_input();
+    let y = b.public_input();
+    let m = b.mul(x, y);
+    let s = b.add(m, x);
+    let e = b.public_input();
+    b.connect(s, e);
+    let circuit = b.build().ok()?;
+    // x with every coefficient non-zero so that the product depends on the reduction
+    let coeffs: Vec<BB> = (0..D).map(|i| BB::from_u64(3 + 2 * i as u64)).collect();
+    let xv = EF::from_basis_coefficients_slice(&coeffs)?;
+    let yv = xv + EF::from_u64(5);
+    let ev = xv * yv + xv;
+    let packing = TablePacking::new(1, 1);
+    let mut r = circuit.runner();
+    r.set_public_inputs(&[xv, yv, ev]).ok()?;
+    let traces = r.run().ok()?;
+    let cfg = vpe1::accept::fast_baby_bear();
+    let (ad, prim, np) = get_airs_and_degrees_with_prep::<BabyBearConfig, _, D>(&circuit, &packing, &[], &[], ConstraintProfile::Standard).ok()?;
+    let (airs, degs): (Vec<_>, Vec<usize>) = ad.into_iter().unzip();
+    let pd = ProverData::from_airs_and_degrees(&cfg, &airs, &degs);
+    let cpd = CircuitProverData::new(pd, prim, np);
+    let prover = BatchStarkProver::new(cfg).with_table_packing(packing);
+    let proof = prover.prove_all_tables(&traces, &cpd).ok()?;
+    prover.verify_all_tables::<EF>(&proof).ok()?;
+    Some(proof)
+}
+
+/// Cross-field clause: a genuine proof over one trace field presented to a verifier instantiated
+/// for ANOTHER extension degree of the same base field (same binomial parameter W for 4 / 8) must be
+/// rejected: "metadata contradicting the verifier's expected field parameters is rejected".
+/// Returns (proof field, verifier field, verdict).
+fn cross_field_verdicts() -> Vec<(&'static str, &'static str, Verdict)> {
+    type BB8 = p3_field::extension::BinomialExtensionField<BB, 8>;
+    let v = |p: &BatchStarkProof<BabyBearConfig>, which: &str| -> Verdict {
+        let pr = BatchStarkProver::new(vpe1::accept::fast_baby_bear());
+        match which {
+            "d1" => verdict_of!(pr.verify_all_tables::<BB>(p).map_err(|e| format!("{e:?}"))),
+            "d4" => verdict_of!(pr.verify_all_tables::<BB4>(p).map_err(|e| format!("{e:?}"))),
+            _ => verdict_of!(pr.verify_all_tables::<BB8>(p).map_err(|e| format!("{e:?}"))),
+        }
+    };
+    let proofs: Vec<(&'static str, Option<BatchStarkProof<BabyBearConfig>>)> = vec![
+        ("d1", quiet_catch(bb_honest_proof::<BB, 1>).ok().flatten()),
+        ("d4", quiet_catch(bb_honest_proof::<BB4, 4>).ok().flatten()),
+        ("d8", quiet_catch(bb_honest_proof::<BB8, 8>).ok().flatten()),
+    ];
+    let mut out = vec![];
+    for (pf, p) in &proofs {
+        let Some(p) = p else { continue };
+        for vf in ["d1", "d4", "d8"] {
+            out.push((*pf, vf, v(p, vf)));
+        }
+    }
+    out
+}
+
 /// BabyBear, element field = base (D=1) or the degree-4 extension.
 fn bb_fixture<const EXT: bool>() -> Fixture {
     type Proof = BatchStarkProof<BabyBearConfig>;
@@ -493,6 +555,18 @@ fn main() {
     }
     if let Some(path) = &ctx.replay {
         let r = vpcore::load_replay(path);
+        if r["fixture"].as_str() == Some("cross_field") {
+            for (pf, vf, verdict) in cross_field_verdicts() {
+                if Some(pf) == r["proof"].as_str() && Some(vf) == r["verifier"].as_str() {
+                    println!("replay cross_field: babybear proof over {pf}, verifier for {vf} -> {verdict:?}");
+                    if pf != vf && verdict == Verdict::Accept {
+                        report.violation("replay:cross_field_accepted", "accepted", r.clone());
+                    }
+                }
+            }
+            let cov = json!({"evaluations":1,"distinct_nontrivial":1,"rule":"replay","samples":[r]});
+            finish(&ctx, cov, vec![], &report);
+        }
         let fx = fixtures.iter().find(|f| f.name == r["fixture"].as_str().unwrap_or("")).unwrap_or_else(|| vpcore::machinery_error("unknown fixture in replay"));
         let label = r["proof"].as_str().unwrap_or("honest");
         if let Some(alt) = r["inmem"].as_str() {
@@ -530,6 +604,28 @@ fn main() {
     let mut harmless: std::collections::BTreeSet<String> = Default::default();
     let harmless_m = std::sync::Mutex::new(&mut harmless);
 
+    // cross-field clause
+    let mut cross_hist: Vec<String> = vec![];
+    for (pf, vf, verdict) in cross_field_verdicts() {
+        evals.fetch_add(1, Ordering::Relaxed);
+        cross_hist.push(format!("babybear proof over {pf} / verifier for {vf}: {}", verdict.tag().split(':').next().unwrap()));
+        if pf == vf {
+            if verdict != Verdict::Accept {
+                vpcore::machinery_error(&format!("honest babybear {pf} proof not accepted by its own verifier: {verdict:?}"));
+            }
+        } else {
+            if matches!(verdict, Verdict::Reject(_)) {
+                nontrivial.fetch_add(1, Ordering::Relaxed);
+            }
+            if verdict == Verdict::Accept {
+                report.violation(
+                    format!("field_param_mismatch_accepted:cross_field:babybear-{pf}-proof/{vf}-verifier"),
+                    format!("a genuine proof over BabyBear {pf} is accepted by verify_all_tables instantiated for {vf}"),
+                    json!({"fixture": "cross_field", "proof": pf, "verifier": vf, "alterations": []}),
+                );
+            }
+        }
+    }
     for fx in &fixtures {
         // in-memory alterations of non-serialized fields: verdict must survive both round trips,
         // and an invalid-trace proof must never verify
@@ -690,6 +786,7 @@ fn main() {
         "fixtures": per_fixture,
         "exhaustive": exhaustive,
         "verdict_histogram(proof kind/number of alterations/verdict)": histo.to_json(),
+        "cross_field_verdicts(genuine proof over one extension degree, verifier instantiated for another)": cross_hist,
         "verifier_panics_by_location(observation, counted as rejection)": panics.to_json(),
         "honest_proof_still_accepted_after_alteration_of": harmless.iter().cloned().collect::<Vec<_>>(),
     });
